@@ -200,10 +200,11 @@ func pfmMonitor(r *Rng, n int, report func(Viol)) {
 
 func init() {
 	Register(Engine{
-		Name:    "pfm",
-		Props:   []string{"C43"},
-		New:     func() Executor { return &pfmExec{env: newPfmEnv()} },
-		Gen:     pfmGen,
-		Monitor: pfmMonitor,
+		Name:       "pfm",
+		MaxMonitor: 1500,
+		Props:      []string{"C43"},
+		New:        func() Executor { return &pfmExec{env: newPfmEnv()} },
+		Gen:        pfmGen,
+		Monitor:    pfmMonitor,
 	})
 }
